@@ -12,7 +12,7 @@
    [serve_allowed r m p] the responses ServeHTTP may give depending on the order in
    which Go iterates its maps, [serve r m p] the first of them. *)
 From Coq Require Import List String Ascii Bool ZArith.
-From GZ Require Import C09.Model C09.Spec C09.Proofs C09.ServerModel C09.ServerProofs C09.Check C09.SpecProofs.
+From GZ Require Import C09.Model C09.Spec C09.Proofs C09.ServerModel C09.ServerProofs C09.Check C09.SpecProofs C09.History.
 Import ListNotations.
 Open Scope string_scope.
 
@@ -412,6 +412,10 @@ Theorem server_model_passes_judgement : forall s q r,
   start_of (wstarts (run opt_real (scfgs s) (stables s) (sevents s))) (sqs q) = Some (Started r) ->
   let c := nth (sqs q) (scfgs s) default_cfg in
   In (sqres q) (sserve_allowed (sc_cors c) r (sqm q) (sqp q)) ->
+  match sqres q with
+  | SResp (RHandler _ ps) => Forall (eq ps) (sqlate q)      (* every later read = the first one *)
+  | _ => sqlate q = []
+  end ->
   sreq_ok s q = true.
 Proof. exact L_server_model_passes. Qed.
 Print Assumptions server_model_passes_judgement.
@@ -457,3 +461,54 @@ Example ex_order_irrelevant :
   serve (router_of false false [mkReg "POST" "/a/b" 2%Z; mkReg "GET" "/a/b" 1%Z; mkReg "GET" "/a/:x" 0%Z]) "PUT" "/a/b"
   = RNotAllowed ["POST"; "GET"].
 Proof. vm_compute. split; reflexivity. Qed.
+
+(* ====================================================================== request histories
+   One long-lived router, any schedule of Serve / Return / Read events over numbered requests
+   (History.v): a handler may read its path variables long after ServeHTTP returned for it (route
+   timeout answered by rest's timeout middleware, kept request or map), with any other requests
+   served in between or concurrently. *)
+
+(* every read returns the bindings of the reading request itself: a function of the router (hence
+   of the table) and request i only *)
+Theorem reads_are_own_bindings : forall r reqs sched i ps,
+  In (i, ps) (hreads (hrun r reqs sched)) -> ps = vars_of r (req_at reqs i).
+Proof. exact L_reads_are_own_bindings. Qed.
+Print Assumptions reads_are_own_bindings.
+
+(* ... independent of every other request and of the schedule *)
+Theorem reads_independent_of_other_requests : forall r reqs reqs' sched sched' i ps ps',
+  req_at reqs i = req_at reqs' i ->
+  In (i, ps) (hreads (hrun r reqs sched)) -> In (i, ps') (hreads (hrun r reqs' sched')) -> ps = ps'.
+Proof. exact L_reads_independent_of_other_requests. Qed.
+Print Assumptions reads_independent_of_other_requests.
+
+(* ... and exactly the segments bound by the best route *)
+Theorem reads_are_best_route_bindings : forall nf na regs reqs sched i ps segs t,
+  In (i, ps) (hreads (hrun (router_of nf na regs) reqs sched)) ->
+  clean_path (snd (req_at reqs i)) = Some segs ->
+  one_var_name_per_position (table_of regs) = true ->
+  is_best (table_of regs) (fst (req_at reqs i)) segs t ->
+  ps = binds (tpat t) segs.
+Proof. exact L_reads_are_best_route_bindings. Qed.
+Print Assumptions reads_are_best_route_bindings.
+
+(* what prop_ok says of the later reads observed on the Go code *)
+Theorem late_reads_judged_like_the_first : forall T nf na m p r l,
+  lates_ok T nf na m p r l = true <-> lates_judged T nf na m p r l.
+Proof. exact lates_ok_iff. Qed.
+Print Assumptions late_reads_judged_like_the_first.
+
+Theorem server_late_reads_judged : forall s q resp,
+  server_in_scope s (sqs q) = true ->
+  let c := nth (sqs q) (scfgs s) default_cfg in
+  sc_cors c = false -> sqres q = SResp resp ->
+  sreq_ok s q = true ->
+  lates_judged (table_of (user_regs s (sqs q))) (sc_nf c) (sc_na c) (sqm q) (sqp q) resp (sqlate q).
+Proof. exact L_server_lates_judged. Qed.
+Print Assumptions server_late_reads_judged.
+
+Example ex_history :
+  hreads (hrun (router_of false false ex_regs) [("GET", "/a/1/b"); ("GET", "/2/a/a")]
+            [HServe 0; HReturn 0; HServe 1; HRead 0; HRead 1; HReturn 1; HRead 0])
+  = [(0%nat, [("y", "1")]); (1%nat, [("x", "2")]); (0%nat, [("y", "1")])].
+Proof. vm_compute. reflexivity. Qed.
